@@ -11,6 +11,8 @@ _ids = itertools.count()
 
 
 def gen_case(rng):
+    if rng.random() < 0.15:
+        return {'kind': 'onceset', 'altkey': rng.choice(['main', 'alt1', 'alt2']), 'ups': [rng.randrange(1, 9) for _ in range(4)]}
     return {'kind': 'onceset', 'k': rng.choice([1, 2, 10]), 'at': rng.choice([1, 2, 3]),
             'value': rng.choice([0, 500, -7]), 'how': rng.choice(['set', 'set', 'accumulate', 'null']),
             'ticks': rng.choice([4, 5, 6]), 'init': rng.choice([0, 3]), 'default': rng.choice([0, 9]),
@@ -20,6 +22,8 @@ def gen_case(rng):
 def corpus():
     return [{'kind': 'onceset', 'k': 10, 'at': 2, 'value': 500, 'how': 'set', 'ticks': 5, 'init': 0, 'default': 0},
             {'kind': 'onceset', 'k': 2, 'at': 1, 'value': 0, 'how': 'set', 'ticks': 4, 'init': 3, 'default': 9},
+            # an updater registered under a main key and alternate keys is the same updater under every one of them
+            {'kind': 'onceset', 'altkey': 'alt1', 'ups': [7, 3, 9, 2]},
             # the overriding update is a `_reduce` over another subtree that names `set` for its result
             {'kind': 'onceset', 'k': 10, 'at': 2, 'value': 500, 'how': 'set', 'ticks': 5, 'init': 0, 'default': 0,
              'reduce': True}]
@@ -43,7 +47,47 @@ def reference(case):
     return out
 
 
+def _vmax(current, update):
+    return max(current, update)
+
+
+def _run_altkey(case):
+    from vivarium.core.engine import Engine
+    from vivarium.core.process import Process
+    from vivarium.core.registry import updater_registry
+    if updater_registry.access('verif_vmax') is None:
+        updater_registry.register('verif_vmax', _vmax, alternate_keys=['verif_vmax_a', 'verif_vmax_b'])
+    name = {'main': 'verif_vmax', 'alt1': 'verif_vmax_a', 'alt2': 'verif_vmax_b'}[case['altkey']]
+    ups = case['ups']
+
+    class High(Process):
+        def __init__(self, parameters=None):
+            super().__init__(parameters)
+            self.n = 0
+
+        def ports_schema(self):
+            return {'s': {'high': {'_default': 0, '_updater': name, '_emit': True}}}
+
+        def next_update(self, timestep, states):
+            self.n += 1
+            return {'s': {'high': ups[(self.n - 1) % len(ups)]}}
+    obs = {}
+    try:
+        eng = Engine(processes={'h': High()}, topology={'h': {'s': ('s',)}}, emitter={'type': 'null'},
+                     display_info=False, progress_bar=False)
+        vals = []
+        for _ in range(len(ups)):
+            eng.update(1)
+            vals.append(eng.state.get_value()['s']['high'])
+        obs['values'] = vals
+    except Exception as e:  # noqa
+        obs['raised'] = f'{type(e).__name__}: {str(e)[:200]}'
+    return obs
+
+
 def run_impl(case):
+    if case.get('altkey'):
+        return _run_altkey(case)
     from vivarium.core.engine import Engine
     from vivarium.core.process import Process
 
@@ -97,6 +141,15 @@ def oracle(case, impl):
         return []
     if impl.get('raised'):
         return [f'engine-raised: {impl["raised"]}']
+    if case.get('altkey'):
+        want, m = [], 0
+        for u in case['ups']:
+            m = max(m, u)
+            want.append(m)
+        if impl['values'] != want:
+            return [f'registered-name: an updater (max) registered with alternate keys and declared through its '
+                    f'{case["altkey"]} key: updates {case["ups"]} leave {impl["values"]}, the updater gives {want}']
+        return []
     want = reference(case)
     if impl['values'] != want:
         return [f'override-once: +{case["k"]} per tick, at tick {case["at"]} one update {{_value: {case["value"]}, '
